@@ -626,6 +626,8 @@ MC_STREAMER = dict(module="MC_Streamer", cfg={"quick": "MC_Streamer.quick.cfg", 
 GEN_SESSION = dict(module="Gen_Session", cfg={"quick": "Gen_Session.quick.cfg", "thorough": ["Gen_Session.thorough.cfg", "Gen_Session.thorough2.cfg"]})
 GEN_CONN = [dict(module="Gen_Conn", cfg={"quick": "Gen_Conn.quick.cfg", "thorough": "Gen_Conn.thorough.cfg"},
                  simulate={"quick": {"num": 150, "depth": 60}, "thorough": {"num": 2500, "depth": 80}}),
+            # behaviours over two Stream calls on one Streamer (the first call's reader may still be on its way out during the second)
+            dict(module="Gen_Conn", cfg="Gen_Conn.two.cfg", simulate={"quick": {"num": 60, "depth": 90}, "thorough": {"num": 800, "depth": 90}}),
             # one script per transition of MC_Conn's state graph (quick: MaxPkts = 1, a twelfth of them chosen by the seed; thorough: MaxPkts = 2, all)
             dict(module="Cover_Conn", cfg={"quick": ["Cover_Conn.cfg", "Cover_Conn.cross.cfg"], "thorough": ["Cover_Conn.thorough.cfg", "Cover_Conn.cross.thorough.cfg"]})]
 
